@@ -377,3 +377,25 @@ func (s *searchInfo) putValueKind(put *ast.CallExpr) string {
 	}
 	return ""
 }
+
+// putKindIn classifies the value handed to a put in a given state: when the argument is
+// a local variable known (in that state) to equal one of the package-level failure routes,
+// the state decides; otherwise the static classification is used.
+func (s *searchInfo) putKindIn(st *flow.State, put *ast.CallExpr) string {
+	if k := s.putValueKind(put); k != "" {
+		return k
+	}
+	if len(put.Args) != 2 {
+		return ""
+	}
+	id, ok := ast.Unparen(put.Args[1]).(*ast.Ident)
+	if !ok {
+		return ""
+	}
+	for g, code := range s.routeCodes {
+		if st.Is("eq:"+s.f.Render(id)+"==@"+g.Pkg().Path()+"."+g.Name(), flow.True) {
+			return code
+		}
+	}
+	return ""
+}
